@@ -2,7 +2,9 @@ import python_minifier.ast_compat as ast
 
 
 def remove_posargs(node):
-    if isinstance(node, ast.arguments) and hasattr(node, 'posonlyargs'):
+    if isinstance(node, ast.arguments) and hasattr(node, 'posonlyargs') and node.kwarg is None:
+        # With a **kwargs parameter a caller may pass a keyword argument named like a positional-only parameter,
+        # which would clash with the parameter once the '/' is removed
         node.args = node.posonlyargs + node.args
         node.posonlyargs = []
 
